@@ -329,7 +329,7 @@ func (s emptyElementPseudoClassSelector) Match(n *html.Node) bool {
 		case html.ElementNode:
 			return false
 		case html.TextNode:
-			if strings.TrimSpace(nodeText(c)) == "" {
+			if strings.Trim(nodeText(c), " \t\n\r\f") == "" { // document white space only
 				continue
 			} else {
 				return false
